@@ -6,7 +6,8 @@ NEEDS_KNUT = True
 RULE = ("generated accepted journals (5 account types, 2-4 commodities with direct/inverse/chained prices and several price "
         "changes, accruals, assertions, open/close) plus the variations that matter for the emitted ledger: the user's journal "
         "opens (early / late / opens and closes) the Income:... account that Valuate posts to; accounts below Equity:Valuation:; "
-        "an account closed and opened again; V itself held; V with digits or multi-byte letters; V without prices; no -v. "
+        "an account closed and opened again; V itself held; V with digits or multi-byte letters; V without prices; no -v; "
+        "descriptions that span several lines (continuation lines that imitate a blank line, a posting, a directive). "
         "`knut transcode -v V FILE` on each; the model's text must be byte-identical, and the executable statement "
         "(Spec.BeancountSpec.c16_verdict: reader of the text, every transaction sums to exactly zero in one commodity, dates "
         "never go back, every posted account has an open directive in force and no earlier close, the transactions are the "
@@ -72,7 +73,8 @@ def nontrivial(c):
 
 def distribution(cases):
     d = {"ok": 0, "err": 0, "panic": 0, "with_adjustments": 0, "no_val": 0, "val": {}, "user_opens_valuation_account": 0,
-         "equity_valuation_account": 0, "reopened": 0, "duplicate_open_lines": 0, "nonascii_or_digit_V": 0, "accrual": 0}
+         "equity_valuation_account": 0, "reopened": 0, "duplicate_open_lines": 0, "nonascii_or_digit_V": 0, "accrual": 0,
+         "multiline_description": 0}
     for c in cases:
         o = c.observed or ""
         d["ok" if o.startswith("OK") else ("panic" if o.startswith("PANIC") else "err")] += 1
@@ -87,6 +89,9 @@ def distribution(cases):
         d["equity_valuation_account"] += "Equity:Valuation:" in c.input
         d["reopened"] += "Assets:Reopened" in c.input
         d["accrual"] += "accrue=" in c.input
+        d["multiline_description"] += any(
+            p.startswith("T ") and len(p.split()) > 2 and "0a" in [p.split()[2][k:k + 2] for k in range(0, len(p.split()[2]), 2)]
+            for p in c.input.split(" | ", 1)[-1].split(" ; "))
         if o.startswith("OK "):
             opens = [l for l in o.split("\\n") if " open " in l]
             d["duplicate_open_lines"] += len(opens) != len(set(opens))
